@@ -227,6 +227,16 @@ def ops_for(a, m):
             m2.bonds = set(m.bonds) | {(x + nn, y + nn, t) for x, y, t in m.bonds}
         return b, m2
     ops.append(("repeat twice (shifted coordinates)", rep))
+    def rep_once(a, m):
+        nn = m.n()
+        if nn == 0 or nn > 6:
+            return a, None
+        base = a.coord if m.stack else a.coord[None]
+        b = struc.repeat(a, (base + 100.0)[None] if m.stack else (base + 100.0))
+        m2 = m.copy()
+        m2.coord = [[tuple(float(x) + 100.0 for x in c[i]) for i in range(nn)] for c in m.coord]
+        return b, m2
+    ops.append(("repeat once (shifted coordinates)", rep_once))
     def add_other(a, m):
         o = a.copy()
         if o.box is not None:
@@ -339,6 +349,15 @@ def run_histories(stack, depth):
                     c2 = compare(a, m)           # the operand itself must be unchanged
                     if c2:
                         return "operand changed: " + c2
+                    # ... and stays so when the bond list of a result is edited afterwards: every operation
+                    # hands out a bond list of its own ("bonds keep connecting the same atoms")
+                    a3, m3 = f(a, m)
+                    if a3 is not a and isinstance(a3, (struc.AtomArray, struc.AtomArrayStack)) and a3.bonds is not None and m3 is not None and m3.n() >= 2:
+                        a3.bonds.add_bond(0, m3.n() - 1, 6)
+                        a3.bonds.remove_bond(0, 1)
+                        c3 = compare(a, m)
+                        if c3:
+                            return "editing the bond list of the result changed the operand: " + c3
                 return c
             fail = R.check("history step: container == list-of-atoms model", key, {"container": "stack" if stack else "array", "history": h2}, step)
             if not fail and "a" in res and isinstance(res["a"], (struc.AtomArray, struc.AtomArrayStack)):
